@@ -176,10 +176,11 @@ PROPS["C07"] = dict(
                "store holds exactly the heights below the stable height after EVERY exit of ingest_stable_blocks_into_utxoset, paused ones included, so the two "
                "parts partition the range (composition lemma)",
     level_note="BlockHeaderStore over StableBTreeMaps is a stand-in (map view); the stable part's iterator pipeline and the serialisation of headers "
-               "(consensus_encode) are not under contract; linking of consecutive headers follows from path-ness of best_path (C02) and is not separately proved",
+               "(consensus_encode) are stand-in calls inside get_block_headers_internal, which is verified as a whole (documented errors with the real tip height, "
+               "tip_height = last height served, stable part then unstable part, one header per height of the effective range when wf_headers holds); linking of consecutive headers follows from path-ness of best_path (C02) and is not separately proved",
     explanation="R8 slice of get_block_headers_in_range (index arithmetic), whole verify_and_return_effective_range, second extraction of the ingestion loop with wf_headers.",
     unverified_links=[
-        "get_block_headers_internal: the two with_state closures (range(..).map(..).collect(), consensus_encode) that materialise the headers",
+        "the CONTENTS produced by the two materialisation pipelines of get_block_headers_internal (range(..).map(..).collect(), consensus_encode): uninterpreted; their lengths are assumed from the store's domain / the verified index slice",
         "BlockHeaderStore::{insert, get_block_headers_in_range} over StableBTreeMap (assumed map semantics)",
         "upgrades",
     ],
@@ -193,7 +194,9 @@ PROPS["C04"] = dict(
                "exactly the longest prefix of the served chain whose blocks all have stability count >= c and names its last block and height as tip, that a c larger "
                "than the chain is refused with MinConfirmationsTooLarge{given, max}, and (lemma) that on a fork-free chain of L blocks the cut is after block L-c (tip at H-c+1)",
     level_note="block_hashes_with_depths_by_heights(_helper) is PROVED (fragment rows.tpl) to return, per distance from the anchor, the blocks at that distance with "
-               "the length of their longest descendant chain; that the applied blocks yield the ledger at the cut is C01's unverified refinement; tree height < 2^31",
+               "the length of their longest descendant chain; get_utxos_from_chain is ALSO verified as a whole (second extraction `get_utxos_from_chain_whole`): address refusals, the bound on c, the cut, the tip "
+               "hash/height reported, `limit` elements of the stream as of that tip, and the next-page token (the lazy take/map/collect pipeline is one stand-in call: "
+               "a prefix of an uninterpreted merged stream); that the applied blocks yield the ledger at the cut is C01's unverified refinement; tree height < 2^31",
     explanation="R4 (enumerate => counter) and R8 (statement slice) rewrites are listed per function in the evidence.",
     unverified_links=[
         "AddressUtxoSet::apply_block / into_iter and the page cut (closure pipelines)",
@@ -210,7 +213,9 @@ PROPS["C05"] = dict(
                "cut function, that the get_utxos walk applies for the same request — with every u64 addition/subtraction discharged under the stated range assumption; "
                "both refuse a too-large c by comparing with the chain length",
     level_note="that the stable `balances` map equals the sum over the stable address index, and that per-block deltas equal the UTXO changes, is C01's unverified ledger "
-               "refinement (stable structures + entry-API caches); Address::from_str_checked error mapping and the query wrappers are by inspection only",
+               "refinement (stable structures + entry-API caches); get_balance_private is verified up to its metrics as one slice (`get_balance_private_core`): the same "
+               "address parser on the same network and the same bound on c as get_utxos_from_chain_whole (so both refuse the same requests), None = 0 confirmations, the "
+               "served chain, the stability rule; Address::from_str_checked itself is an uninterpreted function of (text, network)",
     explanation="get_balance walk verified as an R8 slice with ghost accounting (balance_after); agreement follows because both contracts are stated over cut_len.",
     unverified_links=[
         "UtxoSet::get_balance (stable balances map with in-progress block reverted), insert_utxo / remove_inputs keeping balances and index in step",
